@@ -31,7 +31,7 @@ NONE = -999999
 
 # ---------------------------------------------------------------------------------------- workers
 
-def work(sc, timeout=900):
+def work(sc, timeout=120):
     env = dict(os.environ, PYTHONPATH=REPO + ':' + VERIF, PYTHONHASHSEED='0', OMP_NUM_THREADS='1', OPENBLAS_NUM_THREADS='1',
                MKL_NUM_THREADS='1', PYTHONDONTWRITEBYTECODE='1')
     try:
@@ -230,7 +230,7 @@ def run(ck):
     jobs = cases + inters + [a[2] for a in alone] + [pk_alone, pk_inter]
     ck.log('running %d scenario processes (%d cases, %d interleavings)' % (len(jobs), len(cases), len(inters)))
     with cf.ThreadPoolExecutor(14) as ex:
-        results = list(ex.map(work, jobs))
+        results = list(ex.map(lambda j: work(j, 300 if thorough else 120), jobs))
     res_cases = results[:len(cases)]
     res_inter = results[len(cases):len(cases) + len(inters)]
     res_alone = results[len(cases) + len(inters):len(cases) + len(inters) + len(alone)]
@@ -394,7 +394,12 @@ def run(ck):
                 ck.case(key=json.dumps(['inter', i, j, q, c], sort_keys=True, default=str), nontrivial=len(a['steps']) >= 2)
                 ck.traces += 1
                 if a['error']:
-                    report('run() raised for a controller alone in its process: %s' % a['error'], {'kind': 'crash', 'scenario': 'alone'}, {'cfg': c, 'run': sc['runs'][j][q]})
+                    if 'EstimateExtrapolationErrorNonMPI' in c['ccs'] and ('NoneType' in a['error'] or q >= 1):
+                        cause = 'EstimateExtrapolationError-never-active-step' if 'NoneType' in a['error'] else 'EstimateExtrapolationError-buffers'
+                        report('run() raised for a controller alone in its process (run %d on it): %s' % (q, a['error']),
+                               {'kind': 'same-controller-repeat' if cause.endswith('buffers') else 'reentrant', 'cause': cause}, {'cfg': c, 'runs': sc['runs'][j], 'run': q})
+                    else:
+                        report('run() raised for a controller alone in its process: %s' % a['error'], {'kind': 'crash', 'scenario': 'alone'}, {'cfg': c, 'run': sc['runs'][j][q]})
                     continue
                 if not rec_equal(a, b):
                     report('a controller gives different results when other controllers live in the same process',
